@@ -37,15 +37,15 @@ def stringValue (v : Cps) : Cps :=
   | [] => []                                   -- `value[0]` raises on an empty value: no STRING token is empty
   | q :: _ => ((unescQuote q v).drop 1).dropLast
 
-def isWsCp (c : Nat) : Bool := c = 0x20 || c = 0x09 || c = 0x0A || c = 0x0D || c = 0x0C || c = 0x0B
-  || c = 0x1C || c = 0x1D || c = 0x1E || c = 0x1F || c = 0x85 || c = 0xA0
+def isWsCp (c : Nat) : Bool := c = 0x20 || c = 0x09 || c = 0x0A || c = 0x0D || c = 0x0C
 
-/-- `str.strip()` (ASCII white space and the few other code points `str.isspace` knows below U+0100) -/
+/-- `str.strip(' \t\r\n\f')`: CSS white space only -/
 def stripWs (v : Cps) : Cps := ((v.dropWhile isWsCp).reverse.dropWhile isWsCp).reverse
 
-/-- `_uritokenvalue` (`util.py:254-268`) -/
+/-- `_uritokenvalue` (`util.py:254-270`): the text after the first `(` (the name before it may be longer than
+`url` when it is written with simple escapes), without the closing `)`.  (A URI token always has a `(`.) -/
 def uriValue (v : Cps) : Cps :=
-  let value := stripWs ((v.drop 4).dropLast)
+  let value := stripWs (((v.dropWhile (fun c => c != 0x28)).drop 1).dropLast)
   match value with
   | [] => []
   | q :: _ =>
